@@ -166,7 +166,7 @@ func (c *Client) SendRaw(stream int16, kind, token string, raw []byte, msg messa
 	c.Outstanding[stream] = req
 	c.Reqs = append(c.Reqs, req)
 	c.Link.PeerWrite(raw)
-	c.w.Logf("%s: -> %s", c, req)
+	c.w.Logf("%s: -> %s [% x] len=%d", c, req, raw[:min(len(raw), 9)], len(raw))
 	return req
 }
 
